@@ -132,7 +132,12 @@ type vnode struct {
 	//     file): the ids of FileInfoUidGid are what the handler reports                                -> uid/gid
 	//   3 through Sys().(*syscall.Stat_t) only (what package os returns) -> uid/gid
 	own int
+	// ext: extended attributes the entry reports through FileInfoExtendedData (none if empty)
+	ext []StatExtended
 }
+
+// Extended implements FileInfoExtendedData.
+func (n *vnode) Extended() []StatExtended { return n.ext }
 
 // vnodeUG is a vnode that implements FileInfoUidGid.
 type vnodeUG struct{ *vnode }
